@@ -44,6 +44,8 @@ FieldMism(c, e, r, b) ==
           (IF f[3] # Len(b) - ipoff THEN {"ipv4.total_len"} ELSE {})
           \cup (IF f[8] # TTL \/ SubSeq(f, 11, 14) # SRC4 \/ SubSeq(f, 15, 18) # DST4 THEN {"ipv4.addresses_or_ttl"} ELSE {})
           \cup (IF f[9] # (IF ExtLen(c) > 0 THEN 51 ELSE TrProto(c)) THEN {"ipv4.protocol"} ELSE {})
+          \* a header supplied through ip(IpHeaders::Ipv4(..)) keeps its DSCP, ECN, identification and DF flag
+          \cup (IF c.net = "ip4" /\ <<f[1], f[2], f[4], f[5]>> # <<45, 2, 30600, 1>> THEN {"ipv4.supplied_fields"} ELSE {})
           \cup (IF C!Fold1071(Sub(b, ipoff, hl)) # 65535 THEN {"ipv4.header_checksum"} ELSE {})
           \cup (IF ExtLen(c) > 0 /\ LayerOf(r, "auth").f[1] # TrProto(c) THEN {"ipv4.auth.next_header"} ELSE {})
         ELSE IF c.net # "arp" THEN
